@@ -18,7 +18,7 @@ Relevant files: {', '.join(p['anchors']['files'])}
 
 Requirements for the change:
 - It must be the kind of mistake a maintainer could plausibly make in a refactor/optimisation/bugfix (off-by-one at a boundary, wrong comparison operator, state not reset, cursor advanced too early, check moved after use, lock scope narrowed, buffer shared, condition dropped for one branch...). Not a blatant sabotage, not something every ordinary use would expose at once: it should need something SPECIFIC to manifest — a particular input size/value at a boundary, a particular interleaving or join instant, a multi-step sequence of operations, a fault at a particular point, or two cooperating sites that each look fine alone.
-- Variant hint: you are variant "{n}" — if "a", pick what you consider the most natural subtle change; if "b", deliberately pick a DIFFERENT mechanism/file than the most obvious one (e.g. a less central file from the list, or a stateful/sequence-dependent effect rather than a single-value boundary); if "c" or "d", go for a less-travelled path among the relevant files: a secondary protocol / transport / codec variant, a teardown or error path, a configuration-dependent branch, or an effect that only shows after a history of several operations.
+- Variant hint: you are variant "{n}" — if "a", pick what you consider the most natural subtle change; if "b", deliberately pick a DIFFERENT mechanism/file than the most obvious one (e.g. a less central file from the list, or a stateful/sequence-dependent effect rather than a single-value boundary); if "c" or "d", go for a less-travelled path among the relevant files: a secondary protocol / transport / codec variant, a teardown or error path, a configuration-dependent branch, or an effect that only shows after a history of several operations; if "e" or later, assume the obvious mistakes have already been tried: choose a mechanism that involves an unusual configuration option, an interaction between two features (two protocols, two sessions of different kinds, a feature flag plus a particular instant), or a rarely used API entry point.
 - It must touch only non-test .go files under pkg/ (1-15 changed lines is ideal).
 - `cd {wt} && go build ./... && go test -vet=off -count=1 ./...` must still pass with the change (run it and confirm; all packages ok).
 - Provide a demonstration: a Go test file (e.g. pkg/<x>/zz_seed_demo_test.go, placed in the worktree but NOT part of the patch) or a small main program, that FAILS with the change applied and PASSES on the unmodified tree. Run it both ways (use `git stash` / `git diff > patch; git checkout .; ...`) and confirm.
